@@ -31,11 +31,19 @@ PROPS = {
             {"group": "g0", "name": "c17_timestamp_cmp_is_serial_cmp", "kind": "complete", "tier": "quick",
              "what": "rdata::dnssec::Timestamp::partial_cmp == Serial::partial_cmp == RFC 1982 on all 2^64 pairs"},
         ],
+        "incrate_native": [
+            {"test": "dnssec::validator::group::verif_native::d56_validity_window_across_wrap", "kind": "replay", "finding": "D56",
+             "file": "native/incrate/validator_group.rs",
+             "what": "Group::check_sig / check_sig_cached under the crate's test clock set to 2^32 - 50 s: a signature whose validity period "
+                     "crosses the wrap of the 32-bit time is accepted while the clock is inside it; an expired and a not yet valid one are refused"},
+        ],
         "explanation": "Timestamp::{partial_cmp, canonical_cmp, into_int} (rdata/dnssec.rs) are proved to delegate to Serial. Serial::add and Serial::partial_cmp (real text) carry the RFC 1982 spec functions as postconditions; "
                        "the four laws of the property are lemmas over those spec functions and exec wrappers over the contracts; "
                        "Kani re-proves the laws on the compiled code over the full u32 domains (loop-free, complete).",
         "not_covered": "zonetree Version (feature unstable-zonetree) delegates to Serial; that delegation is not under contract here "
-                       "(see C09). SOA serial comparisons in xfr/zonetree call Serial::partial_cmp (callers not under contract).",
+                       "(see C09). SOA serial comparisons in xfr/zonetree call Serial::partial_cmp (callers not under contract). Which comparison a caller "
+                       "uses is not under contract either: the validator compared its clock with signature times as plain numbers (D56, fixed; guarded by an "
+                       "in-crate replay under the crate's test clock).",
     },
     "C18": {
         "level": "proof",
